@@ -55,7 +55,7 @@ def spec_from_seed(run_seed, tier):
     text = re.sub(r"\|[a-z_]+\([^)]*\)\|", rep, text)
     return {"kind": "atomgraph", "prop": "C18", "text": text, "tags": sorted(tags),
             "sched": {"seed": rnd.randrange(1 << 48), "choice_policy": rnd.choice(["faithful", "uniform_support", "rare", "mix", "first", "last"]),
-                      "draw_policy": rnd.choice(["natural", "low", "mid", "tails"]), "script": None, "budget": 8000}}
+                      "draw_policy": rnd.choice(["natural", "low", "mid", "tails"]), "script": None, "budget": 3000}}
 
 
 def _generate(g, text, sched):
@@ -124,7 +124,7 @@ def execute(spec):
         n_inst = _audit(ast, sg, ag, viol, stats)
         # same schedule, same molecule
         if not viols:
-            sched2 = Scheduler(spec["sched"]["seed"], script=list(sched.trace), budget=8000)
+            sched2 = Scheduler(spec["sched"]["seed"], script=list(sched.trace), budget=3000)
             world2, sg2, ag2, exc2 = _generate(g, text, sched2)
             if exc2 is not None or _canon(ag2) != _canon(ag):
                 viol("same_schedule_different_molecule", f"replaying the outcome script gave {('exception ' + repr(exc2)) if exc2 else _canon(ag2)} instead of {_canon(ag)}")
